@@ -110,6 +110,61 @@ func extra(prop string, probes []xeng.Probe, meta *gen.Meta) error {
 				report("argument-fault-not-contained", e.name+": "+strings.Join(problems, "; "), cases[i], res)
 			}
 		}
+		// an executable directive failing at fields bound to plain struct members (no resolver, no schema directive):
+		// the position fails alone, one error at its path, the recover hook once per panic
+		type markCase struct {
+			name, query, at, kind, data, errPath string
+			recovers                             int
+		}
+		markCases := []markCase{
+			{"directive panics at a nullable struct-member field", `{ a { id inl @mark name } scalar }`, "a.inl", "panic", `{"a":{"id":"id","inl":null,"name":"name"},"scalar":"scalar"}`, "a.inl", 1},
+			{"directive fails at a nullable struct-member field", `{ a { id inl @mark name } scalar }`, "a.inl", "error", `{"a":{"id":"id","inl":null,"name":"name"},"scalar":"scalar"}`, "a.inl", 0},
+			{"directive panics at a non-null struct-member field", `{ a { id inlStrict @mark name } scalar }`, "a.inlStrict", "panic", `{"a":null,"scalar":"scalar"}`, "a.inlStrict", 1},
+			{"directive panics at a struct-member field of a list element", `{ as { id inl @mark } scalar }`, "as.1.inl", "panic", `{"as":[{"id":"id","inl":"inl"},{"id":"id","inl":null}],"scalar":"scalar"}`, "as.1.inl", 1},
+			{"directive panics at the id of a list element (non-null struct member)", `{ as { id @mark inl } scalar }`, "as.0.id", "panic", "", "as.0.id", 1},
+		}
+		var mcases []xeng.Case
+		for i, m := range markCases {
+			o := xeng.NewOracle()
+			o.Guards[m.at] = xeng.FieldPlan{O: m.kind, Tag: "mark"}
+			mcases = append(mcases, xeng.Case{ID: i, Query: m.query, Oracle: o, TimeoutMs: 3000})
+		}
+		mres, err := xeng.RunAll(p.Built.Bin, mcases)
+		if err != nil {
+			return err
+		}
+		for i, m := range markCases {
+			res := mres[i]
+			n++
+			if res.Crashed || res.Hang || len(res.Responses) != 1 {
+				report("directive-fault-at-struct-member-not-contained", m.name+": the probe crashed, hung or did not answer once", mcases[i], res)
+				continue
+			}
+			var rj respJSON
+			_ = json.Unmarshal(res.Responses[0], &rj)
+			var problems []string
+			if m.data != "" && string(rj.Data) != m.data {
+				problems = append(problems, "data "+string(rj.Data)+" (expected "+m.data+")")
+			}
+			if len(rj.Errors) != 1 {
+				problems = append(problems, fmt.Sprintf("%d errors (expected 1)", len(rj.Errors)))
+			}
+			for _, er := range rj.Errors {
+				var segs []string
+				for _, x := range er.Path {
+					segs = append(segs, fmt.Sprint(x))
+				}
+				if strings.Join(segs, ".") != m.errPath {
+					problems = append(problems, fmt.Sprintf("error path %v (expected %s)", er.Path, m.errPath))
+				}
+			}
+			if res.Recovers != m.recovers {
+				problems = append(problems, fmt.Sprintf("recover hook ran %d times (expected %d)", res.Recovers, m.recovers))
+			}
+			if len(problems) > 0 {
+				report("directive-fault-at-struct-member-not-contained", m.name+": "+strings.Join(problems, "; "), mcases[i], res)
+			}
+		}
 		for k, kind := range []string{"error", "panic"} {
 			i := len(argCases) + k
 			res := results[i]
